@@ -146,4 +146,11 @@ def thresholdOf (k : SolverKind) (c : SolverCfg) : Rat :=
 /-- outcome of constructing by any route and calling `solve`: a valid configuration works by every route -/
 def outcome (k : SolverKind) (c : SolverCfg) (_r : Route) : Except CfgErr Unit := validateSolver k c
 
+/-- `utils.logging.get_convergence_format(threshold)`: the number of decimals of the progress format `.{d}f`, from
+    ⌊log10 threshold⌋ (the logarithm is opaque; its floor is the input) and `max_decimals`:
+    `d = max(0, min(-floor(log10 eps) + 1, max_decimals))`.  (Before the repair recorded in known_findings.json the outer
+    `max(0, ·)` was missing and thresholds ≥ 100 gave a negative precision, an invalid format specifier.) -/
+def decimalPlaces (floorLog10 : Int) (maxDecimals : Nat) : Int :=
+  max 0 (min (-floorLog10 + 1) (maxDecimals : Int))
+
 end MdpaxV
